@@ -222,6 +222,9 @@ Close(s)      == [s EXCEPT !.closed = TRUE, !.faulty = TRUE]
 (* the answer to request i with an intact <rpc-reply message-id=i> start tag and a body that is not    *)
 (* well-formed: it belongs to i, whoever takes it off the transport; only i's caller sees the error *)
 BadBody(s, i) == [PushReply(s, i) EXCEPT !.answered = @ \cup {i}, !.damaged = @ \cup {Tag(s)}]
+(* two replies in one frame (a lost delimiter): the frame is filed under the id of its first element,   *)
+(* the full parse sees another id: the owner of the first gets a read error, never the other's content *)
+Glued(s, i)   == [BadBody(s, i) EXCEPT !.faulty = TRUE]
 CanReply(s, i) == i \in SentSet(s) /\ i \notin s.answered
 CanStray(s, i) == i \notin SentSet(s)          \* an id that is not outstanding (maybe not yet used)
 CanDup(s, i)   == i \in s.answered
